@@ -465,6 +465,55 @@ fn run(ctx: &RunCtx) -> Report {
         sim.run_for(rng.range(14 * 60, 15 * 60 + 30) * SEC);
         report.probe("ageing_runs", 1);
     }
+    // 1 non-ageing run in 3 (own random stream): *a lone peer leaves* - the peers that sit alone in the nearest
+    // occupied buckets of server 0's table fall silent; 21..24 minutes later they have been dropped (their
+    // buckets are empty, farther ones are not) and every server starts a lookup of a fresh target: the lookup's
+    // first round asks the closest table members - "selection always returns a prefix of that order of length
+    // at least min(20, available)", observed on the wire
+    let mut lrng = Rng::new(crate::rng::key(ctx.seed, &[crate::rng::tag("c11-lone-peer")]));
+    if !ageing && lrng.chance(1, 3) {
+        sim.want_snapshot(servers[0]);
+        sim.run_for(600 * MS);
+        if let Some(s0) = sim.snapshot(servers[0]) {
+            let mut lone: Vec<(u8, SocketAddrV4)> = s0.routing_table.buckets.iter().filter(|(_, b)| b.len() == 1).map(|(k, b)| (*k, b[0].address)).collect();
+            lone.sort();
+            let leaving: Vec<SocketAddrV4> = lone.iter().take(lrng.usize(1, 2)).map(|x| x.1).collect();
+            for j in 0..rawnet.len() {
+                if leaving.contains(&rawnet.contact(j).1) {
+                    rawnet.with_peer(j, |p| p.silent = true);
+                }
+            }
+            if !leaving.is_empty() {
+                sim.run_for(lrng.range(21 * 60, 24 * 60) * SEC);
+                report.probe("lone_peer_left_runs", 1);
+                for h in &servers {
+                    // not next to a maintenance round (a removal between the snapshot and the call would blur the picture)
+                    sim.want_snapshot(*h);
+                    sim.run_for(600 * MS);
+                    let Some(snap) = sim.snapshot(*h) else { continue };
+                    if snap.since_table_ping_ns > 290 * SEC || snap.since_table_refresh_ns > 890 * SEC {
+                        continue;
+                    }
+                    let t = lrng.id();
+                    let mut members = table_nodes(&snap.routing_table);
+                    sort_closest(&t, &mut members);
+                    let t_issue = sim.now();
+                    let op = sim.get_immutable(*h, t);
+                    sim.run_ops(&[op], sim.now() + 120 * SEC);
+                    let first_round: std::collections::BTreeSet<SocketAddrV4> = sim.with_trace(|tr| {
+                        let reqs: Vec<(u64, SocketAddrV4)> = tr.iter().filter(|d| d.from_host == Some(*h) && d.t_send >= t_issue).filter(|d| Krpc::parse(&d.bytes).map(|k| k.is_query() && k.target() == Some(t)).unwrap_or(false)).map(|d| (d.t_send, d.dst)).collect();
+                        let t_first = reqs.iter().map(|r| r.0).min().unwrap_or(0);
+                        reqs.into_iter().filter(|r| r.0 == t_first).map(|r| r.1).collect()
+                    });
+                    report.probe("first_round_checks", 1);
+                    if let Some(missing) = members.iter().take(10).find(|m| !first_round.contains(&m.1)) {
+                        report.violate("closest", "lookup-first-round-misses-a-closest-table-member", format!("server {} looked {} up: its first round asked {} addresses but not {} @ {}, one of the 10 closest (secure first, then XOR) of its {} table members", sim.node_addr(*h), hex8(&t), first_round.len(), hex8(&missing.0), missing.1, members.len()));
+                        break;
+                    }
+                }
+            }
+        }
+    }
     // raw readers
     let reader = SocketAddrV4::new(if public { pub_ip(&mut rng) } else { priv_ip(5000) }, 5000);
     let (_, _log) = logging_raw(&sim, reader);
